@@ -9,7 +9,6 @@ import (
 
 	"github.com/hashicorp/consul/internal/verifmc/c01"
 	"github.com/hashicorp/consul/internal/verifmc/c02"
-	"github.com/hashicorp/consul/internal/verifmc/c03"
 	"github.com/hashicorp/consul/internal/verifmc/c04"
 	"github.com/hashicorp/consul/internal/verifmc/c05"
 	"github.com/hashicorp/consul/internal/verifmc/c06"
@@ -31,7 +30,6 @@ type checkDef struct {
 var checks = map[string]checkDef{
 	"C01": {"model_checking", c01.Run},
 	"C02": {"model_checking", c02.Run},
-	"C03": {"model_checking", c03.Run},
 	"C04": {"model_checking", c04.Run},
 	"C05": {"model_checking", c05.Run},
 	"C06": {"model_checking", c06.Run},
